@@ -44,12 +44,17 @@ type multi struct {
 // newMulti sets up one board; a root may come with moves already played ("fen|m1 m2 ..."), which
 // can be taken back like any others.
 func newMulti(root string) *multi {
+	seed := int64(0)
+	if strings.HasPrefix(root, "degenerate:") {
+		// a root whose boards use the zero-value Zobrist table (every position hashes to 0)
+		root, seed = strings.TrimPrefix(root, "degenerate:"), bridge.DegenerateSeed
+	}
 	f, hist, _ := strings.Cut(root, "|")
 	g, err := ref.GameFromFEN(f)
 	if err != nil {
 		panic(err)
 	}
-	m := &multi{zt: board.NewZobristTable(0), real: []*board.Board{bridge.NewBoard(f, 0)}, model: []*ref.Game{g}, floor: []int{1}}
+	m := &multi{zt: bridge.Table(seed), real: []*board.Board{bridge.NewBoard(f, seed)}, model: []*ref.Game{g}, floor: []int{1}}
 	for _, t := range strings.Fields(hist) {
 		if !m.apply("push " + t) {
 			panic("bad pre-played history in C08 root: " + root)
@@ -202,7 +207,7 @@ func among(texts ...string) func(g *ref.Game, mv ref.Move) bool {
 func checkC08(c *harness.Check) {
 	mustAnchors(c)
 	depth := c.Pick(8, 10)
-	c.Rule = fmt.Sprintf("all operation words of length <= %d over {push m (root-specific alphabet of <=4 moves incl. castling, e.p., promotion, captures, shuffles; roots incl. two set up with full-move number 0), pop (never below a fork point), fork (<=3 live boards), switch i}; every word is replayed on fresh real boards and after its last operation EVERY live board's getters (position, side, clock, ply, full moves, has-castled x2, last and second-to-last move, HasMoved(1/2/all), hash vs scratch, not-drawn result) are compared with the reference multi-board model; after a push the draw oracle of C05 runs on that board. The forks an engine hands out (Engine.Board) on seven games incl. drawn ones: moves, take-backs and adjudication on them leave the engine's game untouched and vice versa. distinct_nontrivial = distinct canonical states (sorted model snapshots of all live boards)", depth)
+	c.Rule = fmt.Sprintf("all operation words of length <= %d over {push m (root-specific alphabet of <=4 moves incl. castling, e.p., promotion, captures, shuffles; roots incl. two set up with full-move number 0 and one whose boards use the zero-value Zobrist table under which every position hashes to 0), pop (never below a fork point), fork (<=3 live boards), switch i}; every word is replayed on fresh real boards and after its last operation EVERY live board's getters (position, side, clock, ply, full moves, has-castled x2, last and second-to-last move, HasMoved(1/2/all), hash vs scratch, not-drawn result) are compared with the reference multi-board model; after a push the draw oracle of C05 runs on that board. The forks an engine hands out (Engine.Board) on seven games incl. drawn ones: moves, take-backs and adjudication on them leave the engine's game untouched and vice versa. distinct_nontrivial = distinct canonical states (sorted model snapshots of all live boards)", depth)
 	roots := []c08root{
 		{"k7/p7/P7/8/8/7p/7P/7K w - - 0 1", among("h1g1", "g1h1", "a8b8", "b8a8"), "shuffle: repetition across forks"},
 		{"r3k2r/8/8/8/8/8/8/R3K2R w KQkq - 0 1", among("e1g1", "e1c1", "e8g8", "e8c8", "h1g1", "a8b8", "g1h1", "b8a8"), "castling flags"},
@@ -212,6 +217,7 @@ func checkC08(c *harness.Check) {
 		{"k7/p3p3/P7/8/8/7p/4P2P/7K w - - 0 1|h1g1 a8b8 g1h1 b8a8 h1g1 a8b8 g1h1", among("h1g1", "g1h1", "a8b8", "b8a8", "e7e6", "e2e3"), "pre-played shuffle (position seen twice) + free pawns: irreversible move, take-back, repetition"},
 		{"k7/p7/P7/8/8/7p/7P/7K b - - 0 0", among("h1g1", "g1h1", "a8b8", "b8a8"), "full-move number 0 at set-up (the decoder accepts it), Black first: the counter passes 0 -> 1 and back"},
 		{"1k6/p7/P7/8/8/7p/7P/7K w - - 7 0", among("h1g1", "g1h1", "b8a8", "a8b8"), "full-move number 0 at set-up, White first"},
+		{"degenerate:k7/p7/P7/8/8/7p/7P/7K w - - 0 1", among("h1g1", "g1h1", "a8b8", "b8a8"), "shuffle across forks on boards whose hash table maps every position to 0: repetitions are about positions"},
 		{"k7/p3p3/P7/8/8/7p/4P2P/7K w - - 0 1|h1g1 a8b8 g1h1 b8a8", among("h1g1", "g1h1", "a8b8", "b8a8", "e7e6", "e2e3", "e2e4"), "pre-played shuffle + free pawns"},
 	}
 	if c.Thorough() {
